@@ -2,7 +2,7 @@
 
 STANDING_TRUST = [
     'Verus 0.2026.09.13, Z3 4.12.5 (bundled), rustc 1.98.1: trusted',
-    'extraction: tools/rustscan.py + rewrite.py (R1-R16, A1, A2) + unit.py are trusted to preserve run-time behaviour; DESIGN.md 3.2 lists every rewrite',
+    'extraction: tools/rustscan.py + rewrite.py (R1-R21, A1-A6) + unit.py are trusted to preserve run-time behaviour; DESIGN.md 3.2 lists every rewrite',
 ]
 STANDING_ASSUMPTIONS = [
     'machine arithmetic is machine arithmetic (Verus checks overflow on executable + - * and casts); spec integers are mathematical',
@@ -46,7 +46,7 @@ PROPS = {
         'proved': 'new / append / append_serialized / seal produce containers satisfying chain_valid under the issuing root key (given the ideal '
                   'signature scheme): every signature is sign(key designated by the chain, specification layout of the chosen version); to_proto is '
                   'the exact field map, deserialize its inverse relation (lemma_wire_roundtrip).',
-        'not_covered': ['block payload encoding (token_block_to_proto_block + prost) and base64', 'the iterator argument of block_signature_version (rule A2)'],
+        'not_covered': ['block payload encoding (token_block_to_proto_block + prost) and base64'],
         'assumptions': CRYPTO_ASSUMPTIONS,
     },
     'C07': {
@@ -77,10 +77,10 @@ PROPS = {
             r'^format::SerializedBiscuit::(seal|append|append_serialized|deserialize|to_proto)$']}],
         'proved': 'append / append_serialized / seal keep every existing block (hence its signature = revocation identifier) in place and in '
                   'order; to_proto / deserialize map signatures bytewise; the v1 block payload and the seal payload cover the previous signature; '
-                  'ed25519 verification is the strict (non-malleable) one; block_signature_version keeps layout v1 (which covers the previous signature) once any earlier block uses it. '
+                  'ed25519 verification is the strict (non-malleable) one; block_signature_version keeps layout v1 (which covers the previous signature) once any earlier version it is given is 1, and append / append_serialized hand it the versions of the authority block and of every block (v1_sticky: a block appended after any v1 block is v1; the iterator pipeline is read as the sequence of its items, rule A6). '
                   'secp256r1: the clause `an accepted signature is the canonical one of the pair (r, s) / (r, n - s)` is NOT provable on the current tree - known finding, see known_findings.txt.',
         'not_covered': ['uniqueness across independently minted tokens (probabilistic, fresh OsRng key)',
-                        'which earlier versions reach block_signature_version (the iterator argument is abstracted, rule A2)'],
+                        ],
         'assumptions': CRYPTO_ASSUMPTIONS,
     },
 }
@@ -260,12 +260,12 @@ PROPS['C16'] = {
               'computes exactly the feature tables of the Biscuit specification over all facts, rules, checks and scopes of the block (3.1: scopes, check all, bitwise operators, !=; 3.3: reject if, null / array / map '
               'terms, closures, typeof, extern calls, heterogeneous (in)equality, lazy && ||, all / any, get); proto_block_to_token_block returns Ok only for 3 <= version <= 6, version >= 5 for third-party blocks, '
               'check kinds only from 3.1 and reject if only from 3.3, and a declared version at least the detected one; block_signature_version returns 1 for third-party blocks, 3.3 content and non-ed25519 keys, '
-              'and otherwise the maximum of the previous signature versions.',
-    'not_covered': ['the iterator handed to block_signature_version at its three call sites (chain / once / map adaptors, rule A2): that it enumerates the authority and every block is NOT proved, '
-                    'so "never switches back" is proved only relative to that argument', 'ThirdPartyRequest::create_block version >= 3.2 (generic std::cmp::max has only a weak assumed contract)',
+              'and otherwise the maximum of the previous signature versions; SerializedBiscuit::append / append_serialized hand it the versions of the authority block and of every existing block (the iterator pipeline '
+              'is read as the sequence of its items, rule A6), so a block appended after any block of layout v1 has layout v1 (v1_sticky: never switches back).',
+    'not_covered': ['ThirdPartyRequest::create_block version >= 3.2 (generic std::cmp::max has only a weak assumed contract)',
                     'the term-level converters of format/convert.rs mod v2 (assumed total)'],
     'assumptions': ['derived comparison traits of Term / MapKey are total orders; BTreeSet<Term>::contains(&Null) is membership', 'mod v2 converters of format/convert.rs: assumed fallible and total; '
-                    'proto_check_to_token_check maps the kind tag 0/1/2 to One/All/Reject', 'Iterator::max returns the maximum of the yielded items'] + CRYPTO_ASSUMPTIONS[:1],
+                    'proto_check_to_token_check maps the kind tag 0/1/2 to One/All/Reject', 'Iterator::max / last return the maximum / last of the yielded items; std::iter::{empty, once}, slice iter(), chain, map(field) yield the sequences rule A6 computes'] + CRYPTO_ASSUMPTIONS[:1],
 }
 WITNESS_C16 = None
 
